@@ -3,9 +3,10 @@
 needs mpmath, and sympy for multiple roots).
 
 stdin : JSON {"coeffs": [[re_num, re_den, im_num, im_den], ...] (ints as decimal strings, low->high),
-              "target_log2": -200, "force_sqf": false}
+              "target_log2": -200, "force_sqf": false, "exact_only": false}
 stdout: JSON {"ok": bool, "why": str, "scale": c, "pint": [[re, im], ...], "g": [re, im], "a": [re, im],
-              "factors": [{"m": m, "q": [[re, im], ...], "tiny": [[a, b, r, e], ...]}, ...]}
+              "factors": [{"m": m, "prec": K, "q": [[re, im], ...], "tiny": [[a, b, r, e], ...]}, ...]}
+        (prec K > 0: Newton test in truncated arithmetic with scale 2^K; 0: exact arithmetic)
         (all integers as strings; tiny disc = centre (a + i b) 2^e, radius r 2^e)
 
 Nothing produced here is believed: bin/cert re-checks every claim with exact integer arithmetic.
@@ -63,6 +64,41 @@ def n2(x):
     return x[0] * x[0] + x[1] * x[1]
 
 
+def eval2_trunc(q, w, k, K):
+    """mirror of Coq's peval2_trunc with s = 2^k, M = 2^K: ((v, e), (d, ed))"""
+    W = isqrt(n2(w)) + 1
+    v = (0, 0); e = 0; d = (0, 0); ed = 0
+    for c in reversed(q):
+        t = gmul(v, w)
+        nv = ((t[0] >> k) + (c[0] << K), (t[1] >> k) + (c[1] << K))
+        ne = ((e * W) >> k) + 3
+        t = gmul(d, w)
+        nd = ((t[0] >> k) + v[0], (t[1] >> k) + v[1])
+        ned = ((ed * W) >> k) + 3 + e
+        v, e, d, ed = nv, ne, nd, ned
+    return v, e, d, ed
+
+
+def radius_exact(q, a, b, k):
+    n = len(q) - 1
+    v, d = eval2_scaled(q, (a, b), k)
+    nd = n2(d)
+    if nd == 0:
+        return None
+    num = (n << k) ** 2 * n2(v)
+    return isqrt(-(-num // nd)) + 1
+
+
+def radius_trunc(q, a, b, k, K):
+    n = len(q) - 1
+    v, e, d, ed = eval2_trunc(q, (a, b), k, K)
+    nv = isqrt(n2(v)) + 1 + e
+    nd = isqrt(n2(d)) - ed
+    if nd <= 0:
+        return None
+    return -(-((n << k) * nv) // nd)
+
+
 # ---------- numeric root finding (mpmath), all untrusted ----------
 def to_mpc(c):
     return mpc(mpf(c[0]), mpf(c[1]))
@@ -112,11 +148,12 @@ def polish(q, x, prec_from, prec_to):
             return x
 
 
-def tiny_for_factor(q, target_log2, guard, tries=6):
-    """list of (a, b, r, e) for the square-free Gaussian-integer polynomial q, or raises"""
+def tiny_for_factor(q, target_log2, guard, tries=6, exact_only=False):
+    """(list of (a, b, r, e), K) for the square-free Gaussian-integer polynomial q, or raises;
+    K > 0: the radii were computed for the truncated test with scale 2^K, K = 0: exact test"""
     n = len(q) - 1
     if n == 0:
-        return []
+        return [], 0
     prec0 = max(160, 6 * n + 64) + guard
     rts = approx_roots(q, prec0, tries)
     # separation of the approximations decides how small the discs must be
@@ -137,20 +174,23 @@ def tiny_for_factor(q, target_log2, guard, tries=6):
     if k <= 0:
         k = 1; e = -1
     prec_to = k + 40 + guard
-    out = []
+    cents = []
     for x in rts:
         x = polish(q, x, prec0 // 2, prec_to)
         mp.prec = prec_to + 30
-        a = int(mpmath.nint(mpmath.ldexp(x.real, k)))
-        b = int(mpmath.nint(mpmath.ldexp(x.imag, k)))
-        v, d = eval2_scaled(q, (a, b), k)
-        nd = n2(d)
-        if nd == 0:
-            raise RuntimeError("derivative vanishes at centre")
-        num = (n << k) ** 2 * n2(v)
-        r = isqrt(-(-num // nd)) + 1
-        out.append((a, b, r, e))
-    return out
+        cents.append((int(mpmath.nint(mpmath.ldexp(x.real, k))), int(mpmath.nint(mpmath.ldexp(x.imag, k)))))
+    rmax = 1 << (7 + max(1, n).bit_length())      # radius r 2^e stays below 2^target
+    if n >= 3 and not exact_only:
+        K = k + 64
+        for _ in range(6):
+            rs = [radius_trunc(q, a, b, k, K) for a, b in cents]
+            if all(r is not None and r < rmax for r in rs):
+                return [(a, b, r, e) for (a, b), r in zip(cents, rs)], K
+            K += 64 + k // 4
+    rs = [radius_exact(q, a, b, k) for a, b in cents]
+    if any(r is None for r in rs):
+        raise RuntimeError("derivative vanishes at centre")
+    return [(a, b, r, e) for (a, b), r in zip(cents, rs)], 0
 
 
 def discs_disjoint(ts):
@@ -206,6 +246,7 @@ def main():
     coeffs = [(Fraction(int(c[0]), int(c[1])), Fraction(int(c[2]), int(c[3]))) for c in req["coeffs"]]
     target = int(req.get("target_log2", -200))
     force_sqf = bool(req.get("force_sqf", False))
+    exact_only = bool(req.get("exact_only", False))
     while coeffs and coeffs[-1] == (0, 0):
         coeffs.pop()
     if len(coeffs) == 0:
@@ -242,7 +283,8 @@ def main():
             done = False
             for _ in range(4):
                 try:
-                    tinys = [tiny_for_factor(q, target, guard, 6 if use_sqf else 1) for m, q in facs]
+                    res = [tiny_for_factor(q, target, guard, 6 if use_sqf else 1, exact_only) for m, q in facs]
+                    tinys = [r[0] for r in res]; precs = [r[1] for r in res]
                     allt = [t for ts in tinys for t in ts]
                     if discs_disjoint(allt):
                         done = True
@@ -258,9 +300,9 @@ def main():
             if done:
                 out.update({"ok": True, "why": "sqf" if use_sqf else "simple",
                             "g": [str(g[0]), str(g[1])], "a": [str(a[0]), str(a[1])],
-                            "factors": [{"m": m, "q": [[str(c[0]), str(c[1])] for c in q],
+                            "factors": [{"m": m, "prec": K, "q": [[str(c[0]), str(c[1])] for c in q],
                                          "tiny": [[str(v) for v in t] for t in ts]}
-                                        for (m, q), ts in zip(facs, tinys)]})
+                                        for (m, q), ts, K in zip(facs, tinys, precs)]})
                 break
         except Exception as ex:      # noqa
             why = "%s: %s" % (type(ex).__name__, ex)
